@@ -535,5 +535,23 @@ theorem yens_restricted_turn_counterexample :
       [[0, 1, 2, 3], [1, 4, 3]]) = .routes [[0, 1, 2], [0, 3, 4]] :=
   ⟨rfl, Example.yen_restricted_turn⟩
 
+/-- COUNTEREXAMPLE to termination on a later turn: `0 → 1 → 2 → 3` plus a long direct edge `1 → 3`.
+k = 2 returns `[e0, e1, e2]` and the dearer two-edge route `[e0, e3]`; with k = 3 that two-edge route
+is the previous route of the next turn, whose spur loop is empty: no progress, no return -/
+theorem yens_later_short_route_counterexample :
+    Example.obsOf (yens Example.shortcut simAcceptAll .exact 0 3 2 [[0, 1, 2, 3], [1, 3]]) =
+      .routes [[0, 1, 2], [0, 3]] ∧
+    Example.obsOf (yens Example.shortcut simAcceptAll .exact 0 3 3 [[0, 1, 2, 3], [1, 3]]) =
+      .diverges "no-progress" :=
+  Example.yen_later_short_route
+
+/-! ### Non-vacuity (Yen): the partial results apply to an actual run (diamond, k = 1) -/
+
+example : ∃ r, yens Example.diamond simAcceptAll .exact 0 3 1 [[0, 1, 3]] = .ok r ∧
+    r.routes.map (·.map (·.edge)) = [[0, 1]] ∧ 1 ≤ r.routes.length := by
+  obtain ⟨r, hr, hids⟩ := Example.ok_of_obsOf Example.yen_k1
+  obtain ⟨_, _, _, _, _, hlen⟩ := yens_first_route_partial hr
+  exact ⟨r, hr, hids, hlen⟩
+
 end C13
 end Compass
